@@ -74,7 +74,7 @@ func (c *CircuitBreakerConfig) Getlisteners() CircuitBreakerListeners {
 
 // Validate current configuration.
 func (c *CircuitBreakerConfig) Validate() (err error) {
-	if c.failureRateThreshold <= 0 || 1 < c.failureRateThreshold {
+	if !(0 < c.failureRateThreshold && c.failureRateThreshold <= 1) { // also rejects NaN
 		err = fmt.Errorf("failureRateThreshold: %.3f (expected: > 0 and <= 1)", c.failureRateThreshold)
 		return
 	}
